@@ -135,6 +135,13 @@ def check(scn, seed, mo=None):
     probes = {"policy:" + scn["config"]["policy"]: 1, "exact-runs" if exact else "never-early-runs": 1,
               "stalled-runs": 1 if scn.get("faults") else 0}
     t0 = timing.start_time(res, "e1")
+    if t0 is not None and abs(t0 - (EPOCH + scn["executions"][0].get("at", 0.0))) > 1e-6:
+        # a stalled instance served the StartExecution call late: the execution started then (absolute Timestamps and
+        # the deadlines count from the StartTime the handler took)
+        mo = E.model_for(scn, start=t0)
+        probes["start-call-served-late"] = 1
+        if mo.unsupported or mo.status is None or E.flags_block(mo):
+            return {"evaluations": 1, "probes": {"skipped:outside-model": 1}, "findings": [], "distinct": []}
     m_waits = [(x[2], t0 + x[0]) for x in mo.transitions if x[1] == "exited" and
                find_type(scn["machines"]["m"]["definition"], x[2]) == "Wait"]
     e_waits = wait_exits(res, arn)
@@ -354,7 +361,7 @@ def deadline_findings(scn, res, arn, t0, exact, mo=None):
     The machine's TimeoutSeconds: nothing but the States.Timeout failure may happen once it has passed.
       exact runs   the execution is over by t0 + TimeoutSeconds (it either ended before or fails with States.Timeout
                    exactly then)
-      every run    a Task or Wait state whose event is handled after the deadline must not complete, be retried or be
+      every run    a state (of any type) whose event is handled after the deadline must not complete, be retried or be
                    caught: the only history that may follow for the execution is failure, and it ends FAILED with
                    States.Timeout
     """
@@ -381,14 +388,14 @@ def deadline_findings(scn, res, arn, t0, exact, mo=None):
             if a != arn or t <= deadline + timing.TOL:
                 continue
             name = details.get("name")
-            if typ in ("TaskStateEntered", "WaitStateEntered"):
-                entered_late.add((typ[:4], name))
+            if typ.endswith("StateEntered"):
+                entered_late.add((typ[:-len("StateEntered")], name))
                 if late is None:
                     late = (typ, name, t)
-            elif typ in ("TaskStateExited", "WaitStateExited") and ((typ[:4], name) in entered_late or
-                                                                     (zero and not stalled)):
-                # a state entered after the deadline can only fail; without latency or stall, a Task or Wait entered
-                # before it cannot complete after it either (its timer is cut at the deadline)
+            elif typ.endswith("StateExited") and ((typ[:-len("StateExited")], name) in entered_late or (
+                    typ in ("TaskStateExited", "WaitStateExited") and zero and not stalled)):
+                # a state (of any type) entered after the deadline can only fail; without latency or stall, a Task or
+                # Wait entered before it cannot complete after it either (its timer is cut at the deadline)
                 out.append({"property": PROP, "rule": "progress-after-execution-timeout", "witness": None,
                             "detail": "machine TimeoutSeconds %s (deadline t=%.4f): %s %s at t=%.4f" % (
                                 limit, deadline - EPOCH, typ, name, t - EPOCH)})
